@@ -608,7 +608,7 @@ func (c *c01Ctx) build(j interface{}) (sqlText string, vars []interface{}, panic
 			panicked = fmt.Sprint(e)
 		}
 	}()
-	stmt := &gorm.Statement{DB: c.db, Table: "tt", Clauses: map[string]clause.Clause{}, Context: context.Background()}
+	stmt := &gorm.Statement{DB: c.db.Session(&gorm.Session{NewDB: true}), Table: "tt", Clauses: map[string]clause.Clause{}, Context: context.Background()}
 	v := c.real(j)
 	if c01Tag(j) == "ci" { // a clause.Interface handed to AddVar (not built directly)
 		stmt.AddVar(stmt, v)
